@@ -35,13 +35,16 @@ func userFunctions(files map[string]string, main string) map[string]bool {
 	out := map[string]bool{}
 	for _, m := range reFuncName.FindAllStringSubmatch(files[main], -1) {
 		out[strings.ToLower(m[1])] = true
+		out[strings.ToLower("u_"+m[1])] = true
 	}
 	add := func(content string) {
 		h := sha256.Sum256([]byte(content))
 		prefix := fmt.Sprintf("%x", h[:])[0:7]
 		for _, m := range reFuncName.FindAllStringSubmatch(content, -1) {
-			out[strings.ToLower(prefix+"_"+m[1])] = true
-			out[strings.ToLower("m"+prefix+"_"+m[1])] = true
+			for _, pre := range []string{"", "u_"} {
+				out[strings.ToLower(pre+prefix+"_"+m[1])] = true
+				out[strings.ToLower(pre+"m"+prefix+"_"+m[1])] = true
+			}
 		}
 	}
 	for name, content := range files {
